@@ -3139,12 +3139,13 @@ PROPS = {
     'C17': {
         'run': run_C17,
         'replay_aware': True,
-        'pinned': ['C17_control_function_of_ctl', 'C17_control_independent_of_T', 'C17_async_types', 'C17_fft_control_function_of_ctl', 'C17_fft_control_independent_of_T'],
+        'pinned': ['C17_control_function_of_ctl', 'C17_control_independent_of_T', 'C17_async_types', 'C17_fft_control_function_of_ctl', 'C17_fft_control_independent_of_T', 'C17_kernel_f32_f64_close'],
         'unproved': ['the numerical half (f32 output within a small multiple of 2^-23 * peak of the f64 output) is measured on every twin history '
-                     'against a fixed tolerance, not proved (a rounding-error analysis of the kernels and of the FFT is not formalised)',
+                     'against a fixed tolerance; proved only at the level of one dot product given its operands (C17_kernel_f32_f64_close); the '
+                     'construction of the f32 tables, the polynomial interpolators and the FFT are not analysed',
                      'FFT types: their control state is integer-only and sample-type independent by inspection of the generated records; compared on every twin'],
         'assumptions': ['control fields of the four asynchronous types are computed by the generated control functions of the model, which never mention the sample type (theorem)'],
-        'trusted_base': ['closed under the global context (no axioms)'],
+        'trusted_base': ['control theorems: closed under the global context (no axioms); kernel closeness: Reals axioms, Flocq 4.1'],
     },
     'C18': {
         'run': run_C18,
